@@ -9,7 +9,34 @@ fn usage() -> ! {
     std::process::exit(64);
 }
 
+/// A logger that accepts every level, formats every record (so that whatever the server's log
+/// statements evaluate is evaluated) and throws the text away.  Operators run the server with
+/// RUST_LOG set; code guarded by `log_enabled!` must not change what the server does.
+struct Sink;
+impl log::Log for Sink {
+    fn enabled(&self, _: &log::Metadata) -> bool {
+        true
+    }
+    fn log(&self, record: &log::Record) {
+        use std::fmt::Write;
+        thread_local!(static BUF: std::cell::RefCell<String> = std::cell::RefCell::new(String::new()));
+        BUF.with(|b| {
+            let mut b = b.borrow_mut();
+            b.clear();
+            let _ = write!(b, "{}", record.args());
+        });
+    }
+    fn flush(&self) {}
+}
+static SINK: Sink = Sink;
+
 fn main() {
+    // every second worker process (and the parent) runs with logging enabled at every level
+    let worker: Option<usize> = std::env::var("TCSS_WORKER").ok().and_then(|v| v.split(':').nth(1).and_then(|w| w.parse().ok()));
+    if worker.map(|w| w % 2 == 1).unwrap_or(true) && std::env::var("TCSS_NO_LOGGER").is_err() {
+        let _ = log::set_logger(&SINK);
+        log::set_max_level(log::LevelFilter::Trace);
+    }
     // handler panics are observed through the drivers; keep stderr quiet unless asked
     if std::env::var("VERIF_VERBOSE").is_err() {
         std::panic::set_hook(Box::new(|_| {}));
@@ -73,6 +100,25 @@ fn main() {
             }
             ev["coverage"]["fuzz"] = serde_json::Value::Object(f);
             let _ = std::fs::write(&path, serde_json::to_string_pretty(&ev).unwrap());
+            0
+        }
+        "busy-probe" => {
+            // diagnostic: how many refused lock attempts make one lock-wait budget?
+            use taskchampion_sync_server_core::Storage;
+            let dir = tcss_verif::driver::TempDir::new("busyprobe");
+            let rec = tcss_verif::vfs::track(dir.path());
+            let st = taskchampion_sync_server_storage_sqlite::SqliteStorage::new(dir.path()).unwrap();
+            let c = uuid::Uuid::from_u128(7);
+            // like a real lock holder: a connection that stays open keeps the wal-index alive
+            let holder = rusqlite::Connection::open(dir.path().join("taskchampion-sync-server.sqlite3")).unwrap();
+            let _n: i64 = holder.query_row("SELECT count(*) FROM clients", [], |r| r.get(0)).unwrap();
+            for round in 0..4 {
+                rec.set_busy(1000);
+                let t0 = std::time::Instant::now();
+                let r = st.txn(c).map(|_| ());
+                let hits = rec.clear_busy();
+                println!("round {round}: {:?} after {hits} refused attempts, {:?}", r.map_err(|e| format!("{e:#}")), t0.elapsed());
+            }
             0
         }
         "list" => {
